@@ -97,6 +97,12 @@ def main() -> int:  # noqa: C901, PLR0912, PLR0915
     tier = opts.tier if opts.tier in ("quick", "thorough") else "quick"
     seed = int(os.environ.get("VERIF_SEED", "1") or "1")
 
+    import warnings
+
+    import numpy as np
+
+    warnings.simplefilter("ignore")
+    np.seterr(all="ignore")
     import ropt
 
     src = os.environ.get("VERIF_ROPT_SRC", "/repo/src")
